@@ -37,7 +37,24 @@ func traceACL(o opts) error {
 	emit("# acl exhaustive alphabet=%q maxPat=%d maxName=%d", string(alpha), maxPat, maxName)
 	for _, p := range pats {
 		for _, n := range names {
-			emit("m\t%s\t%s\t%s", hx(p), hx(n), b01(acl.Secret(p).Match(n)))
+			emit("m\t%s\t%s\t%s", hx(p), hx(n), safeMatch(p, n))
+		}
+	}
+	// two more small alphabets, exhaustively: two letters (pieces that overlap themselves, so a
+	// matcher has to back up correctly) and backslash with the letters regexp escapes use
+	for _, ab := range [][2][]rune{{{'a', 'b', '*'}, {'a', 'b'}}, {{'\\', 'E', 'Q', '*', 'a'}, {'\\', 'E', 'Q', 'a'}}} {
+		var ps, ns []string
+		saved := alpha
+		alpha = ab[0]
+		gen(nil, 4, &ps)
+		alpha = ab[1]
+		gen(nil, 5, &ns)
+		alpha = saved
+		emit("# acl exhaustive alphabet=%q names=%q", string(ab[0]), string(ab[1]))
+		for _, p := range ps {
+			for _, n := range ns {
+				emit("m\t%s\t%s\t%s", hx(p), hx(n), safeMatch(p, n))
+			}
 		}
 	}
 	// random valid-UTF-8 strings incl. multi-byte runes
@@ -83,18 +100,18 @@ func traceACL(o opts) error {
 		if strings.Count(p, "*") > 4 {
 			continue
 		}
-		emit("m\t%s\t%s\t%s", hx(p), hx(n), b01(acl.Secret(p).Match(n)))
+		emit("m\t%s\t%s\t%s", hx(p), hx(n), safeMatch(p, n))
 	}
 	// rule-set shapes
 	acts := []string{"get", "info", "put", "activate", "delete", "bogus", ""}
-	patPool := []string{"*", "a", "b", "dev/*", "*/x", "a*b*", "", "_internal/*", "a\nb", "dev/x", "prod/*", "prod/key", "a/..", "dev/../x"}
+	patPool := []string{"team\\Eng", "x\\E|\\Q", "*", "a", "b", "dev/*", "*/x", "a*b*", "", "_internal/*", "a\nb", "dev/x", "prod/*", "prod/key", "a/..", "dev/../x"}
 	// names are opaque strings: path-like ones ("..", "//", "/./", trailing "/") mean nothing special
-	namePool := []string{"a", "b", "dev/x", "dev/", "ab", "a\nb", "", "_internal/k", "x", "aXbY", "dev/../prod/key", "a/..", "/..", "a..b//c", "dev//x", "dev/./x", "./a", "prod/key", "dev/../x", ".."}
+	namePool := []string{"team\\Eng", "teamng", "a", "b", "dev/x", "dev/", "ab", "a\nb", "", "_internal/k", "x", "aXbY", "dev/../prod/key", "a/..", "/..", "a..b//c", "dev//x", "dev/./x", "./a", "prod/key", "dev/../x", ".."}
 	for i := 0; i < o.n; i++ {
 		rs := genRules(r, acts, patPool)
 		a := pick(r, acts)
 		n := pick(r, namePool)
-		emit("allow\t%s\t%s\t%s\t%s", encRules(rs), hx(a), hx(n), b01(rs.Allow(acl.Action(a), n)))
+		emit("allow\t%s\t%s\t%s\t%s", encRules(rs), hx(a), hx(n), safeAllow(rs, a, n))
 	}
 	return nil
 }
@@ -139,4 +156,24 @@ func encRules(rs acl.Rules) string {
 		parts = append(parts, strings.Join(as, "+")+"|"+strings.Join(ps, "+"))
 	}
 	return strings.Join(parts, ";")
+}
+
+
+// safeMatch: "0"/"1", or "P" when matching panics (evaluation must never panic).
+func safeMatch(p, n string) (res string) {
+	defer func() {
+		if recover() != nil {
+			res = "P"
+		}
+	}()
+	return b01(acl.Secret(p).Match(n))
+}
+
+func safeAllow(rs acl.Rules, a, n string) (res string) {
+	defer func() {
+		if recover() != nil {
+			res = "P"
+		}
+	}()
+	return b01(rs.Allow(acl.Action(a), n))
 }
